@@ -42,6 +42,7 @@ pub static SPEC: Spec = Spec {
         "repeated_reads_with_pending_events",
         "repeated_reads_with_events_kept_alive",
         "ev:create_proof-served-or-failed:[]",
+        "ev:get-after-failed-append:[G]",
         "ev:shared:append:[U,H]",
         "ev:shared:get-missing:[G]",
         "ev:shared:proof-accepted",
@@ -226,6 +227,18 @@ fn writer_history(ctx: &mut Ctx, ops: &[Op], r: &mut Rng, reads_after_each: bool
                 }
                 ctx.count("ev:append-failed-by-storage-fault:[]");
                 mon.after("append-failed-by-storage-fault", &Expect::Exactly(vec![]), &[]).map_err(|f| (i, f))?;
+                // the failed call made no block available: reads at and beyond the old length on
+                // the same instance are reads of blocks that are not held - exactly one get event each
+                for ix in [old_len, old_len + 1 + r.below(3)] {
+                    match exec::call(sut.core().get(ix)) {
+                        Ok(Ok(None)) => {}
+                        other => {
+                            return Err((i, fail("read-after-failed-append", format!("get({ix}) after an append that failed at length {old_len}: {:?}", other.map(|x| x.map(|y| y.map(|z| z.len())).map_err(|e| e.to_string()))))));
+                        }
+                    }
+                    ctx.count("ev:get-after-failed-append:[G]");
+                    mon.after("get-after-failed-append", &Expect::Exactly(vec![Ev::Get(ix)]), &[]).map_err(|f| (i, f))?;
+                }
                 return Ok(());
             }
             res.map_err(|f| (i, fail(format!("scenario:{}", f.sig), f.detail)))?;
